@@ -1638,6 +1638,10 @@ impl IdmServerAuthTransaction<'_> {
     ) -> Result<Option<LdapBoundToken>, OperationError> {
         match self.validate_and_parse_token_to_identity_token(&lae.token, ct)? {
             Token::UserAuthToken(uat) => {
+                // A bind is an authentication: the account must be within its validity
+                // window and the session must still be live, exactly as for any other
+                // use of the token.
+                self.process_uat_to_identity(&uat, ct, Source::Internal)?;
                 let spn = uat.spn.clone();
                 Ok(Some(LdapBoundToken {
                     session_id: uat.session_id,
@@ -1646,6 +1650,7 @@ impl IdmServerAuthTransaction<'_> {
                 }))
             }
             Token::ApiToken(apit, entry) => {
+                self.process_apit_to_identity(&apit, Source::Internal, entry.clone(), ct)?;
                 let spn = entry
                     .get_ava_single_proto_string(Attribute::Spn)
                     .ok_or_else(|| OperationError::MissingAttribute(Attribute::Spn))?;
